@@ -179,6 +179,18 @@ def cases():
         out.append(('time("%sZ") < time("%sZ")' % (lo, hi), 'true'))
         out.append(('time("%sZ") = time("%sZ")' % (lo, hi), 'false'))
         out.append(('time("%s+02:00") > time("%s+02:00")' % (hi, lo), 'true'))
+    # one instant written with different offsets on DIFFERENT calendar days is one value for = != < <= in and list membership (C15 / C09)
+    for (a, b) in (('2021-01-02T00:30:00+01:00', '2021-01-01T23:30:00Z'), ('2021-03-01T01:00:00+02:00', '2021-02-28T23:00:00Z'), ('2020-12-31T20:00:00-05:00', '2021-01-01T01:00:00Z'),
+                   ('2021-01-01T00:00:00@Europe/Warsaw', '2020-12-31T23:00:00Z'), ('2020-03-01T05:00:00+14:00', '2020-02-29T15:00:00Z')):
+        A, B = 'date and time("%s")' % a, 'date and time("%s")' % b
+        for (x, y) in ((A, B), (B, A)):
+            out.append(('%s = %s' % (x, y), 'true'))
+            out.append(('%s != %s' % (x, y), 'false'))
+            out.append(('%s < %s' % (x, y), 'false'))
+            out.append(('%s <= %s' % (x, y), 'true'))
+            out.append(('%s in [%s..%s]' % (x, y, y), 'true'))
+            out.append(('list contains([%s], %s)' % (x, y), 'true'))
+            out.append(('%s - %s = duration("PT0S")' % (x, y), 'true'))
     # the components of a days-and-time duration are those of its whole length, however long it is (C15: up to the full range of a literal), also when it is a sum
     for (d_, h_, m_, s_) in ((213503, 23, 34, 33), (213504, 0, 0, 0), (213504, 5, 18, 36), (300000, 1, 2, 3), (427008, 0, 0, 1), (1000000, 23, 59, 59), (106751991167, 7, 12, 55)):
         lit = 'P%dDT%dH%dM%dS' % (d_, h_, m_, s_)
